@@ -62,6 +62,7 @@ inductive RuleId
   | depSelfRef | depUndefined | aggFirstArg
   | transFormat | parTwiceFromComp | outflowFromSink | sourceNotNumber | junctionNotProportion | proportionNotJunction
   | multiSource | sourceShared | inflowToSource | numberTargetable
+  | timedVarying          -- a timed (duration) parameter reaches something that varies during the simulation
   | cyclic
   -- names
   | nameSymbol | nameKeyword | nameDuplicate | displayDuplicate
@@ -521,6 +522,64 @@ def parEdgesOf (fw : FrameworkAbs) (par : Par) : List (String × String) :=
 
 def parEdges (fw : FrameworkAbs) : List (String × String) := fw.pars.flatMap (parEdgesOf fw)
 
+/-! ### A timed parameter cannot vary (`_validate_parameters`, after the per-row loop and the flow-rate block)
+
+  The duration of a timed compartment is fixed when the model is built.  The code builds the graph `D` (`par → dep` for every
+  *parameter* named in the function of `par`, other than `par` itself -- derivative parameters included), the set
+  `varying_pars` (parameters whose function names something that is neither a flow, nor a parameter, nor an interaction: after
+  the dependency checks that is a compartment, a characteristic, `t` or `dt`), and rejects a timed parameter when
+  `{par} ∪ descendants(D, par)` contains a parameter of `varying_pars` or a derivative parameter. -/
+
+/-- the parameters named in the function of `par` (other than `par`): the out-edges of `par` in graph `D` -/
+def parDepsOf (fw : FrameworkAbs) (par : Par) : List String :=
+  match par.fn with
+  | .fn f => f.deps.filterMap (fun d => match d with
+      | .var n => if (findPar fw n).isSome && n != par.name then some n else none
+      | _ => none)
+  | _ => []
+
+/-- the edges of graph `D` -/
+def varEdges (fw : FrameworkAbs) : List (String × String) :=
+  fw.pars.flatMap (fun p => (parDepsOf fw p).map (fun d => (p.name, d)))
+
+/-- `dep not in self.pars.index and dep not in self.interactions.index` -/
+def isVaryingName (fw : FrameworkAbs) (n : String) : Bool := (findPar fw n).isNone && (findInter fw n).isNone
+
+/-- `par_name in varying_pars` -/
+def mentionsVarying (fw : FrameworkAbs) (par : Par) : Bool :=
+  match par.fn with
+  | .fn f => f.deps.any (fun d => match d with
+      | .var n => isVaryingName fw n
+      | _ => false)
+  | _ => false
+
+/-- `dep in varying_pars or self.pars.at[dep, "is derivative"] == "y"` -/
+def variesPar (fw : FrameworkAbs) (q : Par) : Bool := q.deriv || mentionsVarying fw q
+
+/-- `U` is the list of parameters not (yet) known to be reachable; a parameter leaves `U` when a parameter outside `U` names it -/
+def growStep (edges : List (String × String)) (U : List String) : List String :=
+  U.filter (fun v => !(edges.any (fun e => e.2 == v && !(U.contains e.1))))
+
+/-- iterate `growStep` until nothing changes (at most `k` times; `k = U.length` is always enough) -/
+def grow (edges : List (String × String)) : Nat → List String → List String
+  | 0, U => U
+  | k + 1, U =>
+      let U' := growStep edges U
+      if U'.length == U.length then U else grow edges k U'
+
+/-- the parameters that are NOT in `{start} ∪ descendants(D, start)` -/
+def unreached (fw : FrameworkAbs) (start : String) : List String :=
+  let U0 := (fw.pars.map (·.name)).filter (fun n => n != start)
+  grow (varEdges fw) U0.length U0
+
+def checkTimedVaryingPar (fw : FrameworkAbs) (p : Par) : Option RuleId :=
+  if p.timed then
+    let U := unreached fw p.name
+    req (fw.pars.all (fun q => U.contains q.name || !(variesPar fw q))) .timedVarying
+  else none
+
+def checkTimedVarying (fw : FrameworkAbs) : Option RuleId := allC (checkTimedVaryingPar fw) fw.pars
+
 /-- spec only: flows from a junction into a junction must not form a cycle (`Model.build` asserts this) -/
 def junctionEdges (fw : FrameworkAbs) : List (String × String) :=
   (allLinks fw).filterMap (fun l => if isJunctionC fw l.src && isJunctionC fw l.dst then some (l.src, l.dst) else none)
@@ -605,24 +664,33 @@ def checkCascadeNested (fw : FrameworkAbs) (c : Cascade) : Option RuleId :=
 
 /-! ### The validator -/
 
+/-- the checks that come before the timed-parameter closure check, in the implementation's order -/
+def earlierRules (fw : FrameworkAbs) : List (Option RuleId) :=
+  [ allC (checkComp fw) fw.comps,
+    allC (checkCharac fw) fw.characs,
+    allC (checkCharacAcyclic fw) fw.characs,
+    allC (checkInit fw) fw.characs,
+    allC (checkInter fw) fw.inters,
+    allC (checkMatrix fw) fw.matrices,
+    allC (checkResidualOne fw) (allLinks fw),
+    checkTimed fw,
+    req (acyclicB (junctionNames fw) (junctionEdges fw)) .junctionCycle,
+    allC (checkPar fw) fw.pars ]
+
+/-- the checks that come after it -/
+def laterRules (fw : FrameworkAbs) : List (Option RuleId) :=
+  [ req (acyclicB (fw.pars.map (·.name)) (parEdges fw)) .cyclic,
+    checkCodeNames (codeNames fw) [],
+    checkDisplayNames (displayNames fw) [],
+    req (nodupB (fw.cascades.map (·.name))) .cascadeDuplicate,
+    allC (checkCascadeName fw) fw.cascades,
+    allC (fun (c : Cascade) => allC (checkStageDefined fw) c.stages) fw.cascades,
+    allC (checkCascadeNested fw) fw.cascades ]
+
+/-- the first violated rule, in the implementation's order: … per-row parameter checks, [flow-rate closure: not modelled],
+    `timedVarying`, `cyclic`, names, cascades -/
 def firstError (fw : FrameworkAbs) : Option RuleId :=
-  seqC [ allC (checkComp fw) fw.comps,
-         allC (checkCharac fw) fw.characs,
-         allC (checkCharacAcyclic fw) fw.characs,
-         allC (checkInit fw) fw.characs,
-         allC (checkInter fw) fw.inters,
-         allC (checkMatrix fw) fw.matrices,
-         allC (checkResidualOne fw) (allLinks fw),
-         checkTimed fw,
-         req (acyclicB (junctionNames fw) (junctionEdges fw)) .junctionCycle,
-         allC (checkPar fw) fw.pars,
-         req (acyclicB (fw.pars.map (·.name)) (parEdges fw)) .cyclic,
-         checkCodeNames (codeNames fw) [],
-         checkDisplayNames (displayNames fw) [],
-         req (nodupB (fw.cascades.map (·.name))) .cascadeDuplicate,
-         allC (checkCascadeName fw) fw.cascades,
-         allC (fun (c : Cascade) => allC (checkStageDefined fw) c.stages) fw.cascades,
-         allC (checkCascadeNested fw) fw.cascades ]
+  seqC (earlierRules fw ++ checkTimedVarying fw :: laterRules fw)
 
 def validate (fw : FrameworkAbs) : Except RuleId Unit :=
   match firstError fw with
